@@ -102,6 +102,22 @@ def key_validation(ctx, rule: str = "a.key-validation") -> None:
                     problems.append((f"`raise {show(e.term, it)[:40]}` (line {getattr(e.node, 'lineno', '?')}) depends on a key column's schema "
                                      f"through `{show(par, it)[:60] if par else show(t, it)[:60]}`, not only through its kind: key columns that "
                                      f"differ in nullability only (a None on one side) would be rejected", e.node))
+            # the two kinds differ: refused only when NEITHER is object - a column without a typed value (all None, e.g. the padded
+            # side of an earlier left join) is inferred as <object?> and must join like any other (its rows simply match nothing)
+            if t[0] == "cmp" and t[1] in ("Is", "Eq") and not pol and t[2][0] == "attr" and t[2][2] == "kind" and t[3][0] == "attr" \
+                    and t[3][2] == "kind" and t[2] != t[3]:
+                k1, k2 = t[2], t[3]
+                obj = ("name", "object")
+                excl = set()
+                for u, upol in flatten_conds(e.conds):
+                    if u[0] == "cmp" and u[1] == "In" and not upol and u[2] == obj and u[3][0] == "tuple":
+                        excl |= set(u[3][1])
+                    if u[0] == "cmp" and u[1] in ("Is", "Eq") and not upol and obj in (u[2], u[3]):
+                        excl.add(u[3] if u[2] == obj else u[2])
+                if not {k1, k2} <= excl:
+                    problems.append((f"`raise {show(e.term, it)[:40]}` (line {getattr(e.node, 'lineno', '?')}) refuses key columns whose kinds "
+                                     f"differ even when one of them is object: an all-None key column (<object?>) against a typed one is an "
+                                     f"admissible input and would be rejected", e.node))
             # the set of admitted kinds
             if t[0] == "cmp" and t[1] == "In" and not pol and t[3][0] == "tuple" and any(x[0] == "attr" and x[2] == "kind" for x in subterms(t[2])):
                 names = {x[1] for x in t[3][1] if x[0] == "name"}
